@@ -429,3 +429,10 @@ func specChunkWireSize(c *chunkPayloadData) int {
 //@      (params[i].(*paramSupportedExtensions).ChunkTypes[j] == ctForwardTSN ==> result.forwardTSN) &&
 //@      (params[i].(*paramSupportedExtensions).ChunkTypes[j] == ctIData ==> result.interleaving) &&
 //@      (params[i].(*paramSupportedExtensions).ChunkTypes[j] == ctIForwardTSN ==> result.iForwardTSN)
+
+// ---- C05: a chunk that is handed to its stream has had its TSN recorded, so the next SACK reports it ----
+
+//@ func Association.acceptPayloadData
+//@   requires#decoded-chunk chunkPayload != nil
+//@   requires#admissible-tsn specRpqInWindow(a.payloadQueue, chunkPayload.tsn)
+//@   ensures#a-chunk-handed-to-its-stream-is-recorded-for-acknowledgement{C05,C01} called("Stream.handleData") ==> specRpqHas(a.payloadQueue, chunkPayload.tsn)
